@@ -29,13 +29,21 @@ SOURCEMAPS = ["target", "directory", "none"]
 FILELISTS = ["absolute", "relative", "flgen"]
 
 
+OUTDIRS = [None, "build-out", "../outside/out"]      # --out-dir: none / inside the project / outside of it
+
+
 def make_case(seed, i):
     rng = Rng.for_case(seed, "C25", i)
     target = TARGETS[i % 3]
     sm = SOURCEMAPS[(i // 3) % 3]
     fl = FILELISTS[(i // 9) % 3]
+    out_dir = OUTDIRS[(i // 27) % 3]
     nsrc = rng.pick([1, 2, 2, 3])
     layout = rng.pick(["flat", "subdirs", "equal-base", "equal-base", "equal-rel"])
+    if out_dir is not None:
+        # --out-dir re-roots the outputs by their sources-relative path (also for the `source` target): half of
+        # these cases, deterministically, have the same relative path below two sources dirs
+        layout = "equal-rel" if (i // 3 + i // 27) % 2 == 0 else rng.pick(["flat", "subdirs", "equal-base"])
     if layout == "equal-rel" and nsrc < 2:
         nsrc = 2
     std = rng.chance(1, 6)
@@ -50,7 +58,16 @@ def make_case(seed, i):
     case = L.case_from_universe(u)
     case["gen_opts"] = {k: v for k, v in opts.items() if k != "root_opts"}
     case["index"] = i
+    case["out_dir"] = out_dir
     return case
+
+
+def collision_expected(case):
+    """Do two root sources legitimately share an output path (so that refusing the build is correct)?
+    directory target, or source target re-rooted by --out-dir: the same relative path below two sources dirs."""
+    t = case["opts"]["target"]
+    return layout_class(case) == "equal-relpath-in-two-sources-dirs" and \
+        (t == "directory" or (t == "source" and case.get("out_dir") is not None))
 
 
 def layout_class(case):
@@ -351,10 +368,17 @@ def run_case(case, scratch):
     d = os.path.join(scratch, f"c{case['index']}")
     L.rmtree(d)
     root = L.write_case(case, os.path.join(d, "u"))
-    build = L.run_veryl(["build", "--verbose"], root, os.path.join(d, "home"))
-    res = {"case": case, "build_code": build["code"], "panic": build["panic"], "stderr_tail": L.tail(build["err"])}
+    cmd = ["build", "--verbose"]
+    base = root
+    if case.get("out_dir"):
+        cmd += ["--out-dir", case["out_dir"]]
+        base = os.path.normpath(os.path.join(root, case["out_dir"]))
+    build = L.run_veryl(cmd, root, os.path.join(d, "home"))
+    res = {"case": case, "build_code": build["code"], "panic": build["panic"], "stderr_tail": L.tail(build["err"]),
+           "refused_collision": build["code"] != 0 and "OutputPathCollision" in build["err"]}
     if build["code"] == 0:
-        res.update(examine(case, root, build))
+        # with --out-dir every output (emitted files, maps, dependencies/, filelist) lives below `base`
+        res.update(examine(case, base, build))
     if not os.environ.get("VERIF_KEEP_SCRATCH"):
         L.rmtree(d)
     return res
@@ -378,7 +402,7 @@ def main():
         rp = json.load(open(args.replay))
         cases = [rp["case"]["case"]]
     else:
-        n = args.budget("cases", 54, 3000)
+        n = args.budget("cases", 81, 3000)
         cases = None
 
     def work(i):
@@ -394,6 +418,20 @@ def main():
         case = res["case"]
         o = case["opts"]
         cfg = f"{o['target']}/{o['sourcemap']}/{o['filelist']}"
+        od = {None: "no-out-dir", "build-out": "out-dir-inside", "../outside/out": "out-dir-outside"}.get(case.get("out_dir"), "out-dir")
+        run.seen("out_dir_configs", f"{od}:{o['target']}:{o['sourcemap']}:{layout_class(case)}")
+        if case.get("out_dir"):
+            run.count("out_dir_cases")
+            if layout_class(case) == "equal-relpath-in-two-sources-dirs":
+                run.count(f"out_dir_equal_relpath_cases_{o['target']}")
+        if res.get("refused_collision"):
+            run.count("build_refused_output_path_collision")
+            if not collision_expected(case):
+                run.violation(f"collision:refused-without-collision:{o['target']}:{layout_class(case)}",
+                              f"veryl build reports OutputPathCollision although no two root sources can share an output "
+                              f"path  [config {cfg}, {od}, sources {case['sources']}]: {res['stderr_tail'][-300:]}",
+                              {"case": case, "how": "write case.tree, cd <dir>/root, veryl build [--out-dir case.out_dir]"})
+            return
         if res["build_code"] != 0:
             if res["panic"]:
                 run.count("build_panicked")
@@ -415,16 +453,19 @@ def main():
                     "files": [f"{f['proj']}/{f['path']}: {', '.join(f['items'])}" for f in case["files"]],
                     "graph": case["graph"], "filelist": res.get("entries"), "order": res.get("order")})
         for sig, what, detail in res["findings"]:
-            run.violation(sig, f"{what}  [config {cfg}, sources {case['sources']}]",
+            run.violation(sig, f"{what}  [config {cfg}, {od}, sources {case['sources']}]",
                           {"case": case, "finding": what, "detail": detail, "entries": res.get("entries"),
                            "order": res.get("order"),
-                           "how": "write case.tree below a directory, cd <dir>/root, veryl build --verbose"})
+                           "how": "write case.tree below a directory, cd <dir>/root, veryl build --verbose "
+                                  "[--out-dir case.out_dir]"})
 
     L.run_cases(len(cases) if cases else n, L.jobs(args), work, handle)
     if args.replay:
         run.finish([])
     run.finish([("projects_built", 12), ("filelists_parsed", 12), ("order_edges_checked", 40),
-                ("configs", 9), ("sources_placed_once", 40), ("bundles_parsed", 3), ("maps_matched", 15)])
+                ("configs", 9), ("sources_placed_once", 40), ("bundles_parsed", 3), ("maps_matched", 15),
+                ("out_dir_cases", 15), ("out_dir_configs", 15), ("out_dir_equal_relpath_cases_source", 3),
+                ("out_dir_equal_relpath_cases_directory", 3), ("out_dir_equal_relpath_cases_bundle", 3)])
 
 
 if __name__ == "__main__":
